@@ -89,6 +89,16 @@ CLAIMED = {
             "Assumed: autograd.jacobian is the exact derivative, scipy.integrate.quad the exact integral (abserr ignored), fsolve converged; "
             "what derived_observable does with operands and gradients is C01 (stub that records them). NOT decided: vector-valued d in "
             "find_root, integration kwargs, agreement with the explicitly inverted function beyond first order."),
+    "C10": ("symbolic execution over an abstract (non-commutative) matrix ring: matrices are elements of an uninterpreted sort with ring / transposition axioms; cvc5 and z3 as external processes; native end-to-end harness through matmul on complex observables",
+            "Proof of the algebra pyerrors itself implements for matrix products: the nested multi_dot of matmul's complex branch returns, for "
+            "2 and 3 complex operands given as real and imaginary parts, exactly the fully expanded real resp. imaginary part of the ordered "
+            "complex matrix product (any dimension: the ring is abstract); the real branch multiplies the operands in the given order; "
+            "_scalar_mat_op (det) rebuilds the matrix from the raveled list row by row before applying the operation (dimensions 1..3, "
+            "entries symbolic, operation uninterpreted).",
+            "DESIGN.md section 6 C10",
+            "Assumed: ring axioms (associativity, distributivity, transposition). NOT decided: everything numerical - inverse, Cholesky, "
+            "determinant, eigen-decompositions, pinv, svd identities are properties of numpy / autograd, the propagation through "
+            "derived_observable(array_mode=True) is C01 territory and not built; _mat_mat_op's real block representation, jack_matmul / einsum."),
     "C12": ("symbolic execution of the selection statements of the dobs reader and of the table-cell statements of the writer (statement slices, exact filter-loop summaries, loop invariant) + z3; native execution of the same slices compiled from the source",
             "Proof (reader, import_dobs_string): for one chain and one observable with symbolic table column, configuration list and mean, "
             "the configurations that come back are exactly those whose stored number is not the marker 0, in increasing order, each with "
@@ -130,6 +140,15 @@ CLAIMED = {
             "DESIGN.md section 6 C15",
             "Same abstraction as C14. NOT decided by this check: the log variants (composition through np.log and Corr multiplication), m_eff "
             "(all variants), plateau and fit; identity of fluctuations rests on C01."),
+    "C16": ("symbolic execution of _GEVP_solver over an abstract matrix ring with the defining equations of Cholesky factor, inverse and (generalised) symmetric eigen-decomposition as axioms; cvc5 / z3 as external processes; native numerical harness",
+            "Proof: for both methods (`eigh`: scipy.linalg.eigh(Gt, G0); `cholesky`: L L^T = G0, eigenvectors of L^-1 Gt L^-T mapped back by "
+            "L^-T) and with or without a precomputed inverse Cholesky factor, the rows of the returned array satisfy the generalised "
+            "eigen-equation in matrix form G(t) V = G(t0) V Lambda with Lambda the eigenvalues in DESCENDING order (state 0 = largest), for "
+            "symmetric positive definite G(t0); any dimension (the ring is abstract).",
+            "DESIGN.md section 6 C16",
+            "Assumed: numpy / scipy return eigenvalues in ascending order and satisfy the defining equations of the decompositions. NOT "
+            "decided: Corr.GEVP's time-slice plumbing (t0, ts, sort modes, None timeslices), _sort_vectors, Eigenvalue / projected / prune, "
+            "the Obs-valued branch, exact-exponential spectra, matrix_pencil_method (numerical statements outside the reach of contracts)."),
     "C18": ("symbolic execution of the record loops as statement slices with the file length universally quantified; loop invariants over (position, records accepted)",
             "Proof for two record loops: _extract_flowed_energy_density and the openQCD branch of _read_flow_obs, with the byte length L of the "
             "file a free symbol (every truncation offset at once): on normal exit every accepted record lies completely before the cut "
